@@ -1,6 +1,7 @@
 """Generate and discharge the obligations of a set of contracts / lemmas."""
 from __future__ import annotations
 
+import re
 import time
 import traceback
 from dataclasses import dataclass, field
@@ -58,6 +59,35 @@ def generate(prop: str, contracts: list[Contract], lemmas: list[Lemma]) -> tuple
 	return eng, errors
 
 
+_EXT = re.compile(r'ext_([A-Za-z0-9_.]+)')
+_AX_TEXT: dict[int, set[str]] = {}
+
+
+def relevant_axioms(ob: Any) -> list[Any]:
+	"""Axioms of the externals that occur in the obligation, closed under the externals the axioms themselves mention.
+	(Unrelated quantified axioms only turn refutable queries into `unknown`.)"""
+	if not ob.axioms:
+		return []
+	used = set(_EXT.findall(to_smt2(ob.assumptions, ob.goal)))
+	chosen: list[Any] = []
+	done: set[int] = set()
+	changed = True
+	while changed:
+		changed = False
+		for i, (name, ax) in enumerate(ob.axioms):
+			if i in done or name not in used:
+				continue
+			done.add(i)
+			chosen.append(ax)
+			if id(ax) not in _AX_TEXT:
+				_AX_TEXT[id(ax)] = set(_EXT.findall(ax.sexpr()))
+			new = _AX_TEXT[id(ax)] - used
+			if new:
+				used |= new
+				changed = True
+	return chosen
+
+
 def run(prop: str, contracts: list[Contract], lemmas: list[Lemma], z3_ms: int | None = None, cvc5_ms: int | None = None) -> RunReport:
 	rep = RunReport(prop)
 	t0 = time.time()
@@ -67,7 +97,7 @@ def run(prop: str, contracts: list[Contract], lemmas: list[Lemma], z3_ms: int | 
 	jobs = []
 	texts = []
 	for ob in eng.obligations:
-		txt = to_smt2(ob.assumptions, ob.goal)
+		txt = to_smt2(ob.assumptions + relevant_axioms(ob), ob.goal)
 		texts.append(txt)
 		if ob.expect == 'sat':
 			jobs.append((txt, ob.want, 1500, -1))  # covers: a quick satisfiability probe, never a proof obligation
